@@ -40,7 +40,9 @@ LEVEL_TEXT = ("The real request path (body reader under Content-Length and chunk
               "Ombott._handle/_cast/wsgi) is executed for every value (all 256) of the symbolic bytes placed at each "
               "enumerated mutation site of the multipart skeletons (start, after a delimiter, header name, colon, header "
               "value, name/filename option, blank line, data, each byte group of the closing delimiter, duplicated and "
-              "missing delimiter), for every truncation offset and buffer size of the skeletons, for JSON skeletons with "
+              "missing delimiter), for part data built from pieces of the delimiter aligned to the parser's scan stride by a "
+              "symbolic pad (two free bytes at the positions that decide whether a partial delimiter goes on), for every "
+              "truncation offset and buffer size of the skeletons, for JSON skeletons with "
               "1-3 symbolic bytes and for every urlencoded text up to the stated length. z3 decides every branch, so "
               "inside the bound each request is answered 2xx or 4xx with exactly one start_response, no traceback and no "
               "escaping exception, and every delivered field equals the data of a delimiter-terminated part of the sent "
@@ -101,6 +103,7 @@ ASSUMPTIONS = [
 OUTSIDE = [
     "multipart skeletons, boundaries and mutation sites other than the enumerated ones; more than 3 symbolic bytes",
     "divisions of the symbolic window into reads other than the enumerated contexts",
+    "delimiter-like data other than the enumerated templates (one partial delimiter per value, boundaries b and sep)",
     "JSON texts other than skeleton + holes; bytes >= 0x80 and NUL in more than one free position of a JSON text",
     "urlencoded texts longer than the stated length",
     "malformed Content-Length / Transfer-Encoding header values (not body bytes)",
